@@ -4,7 +4,10 @@ import (
 	"encoding/json"
 	"fmt"
 	"os"
+	"runtime"
+	"runtime/debug"
 	"strconv"
+	"strings"
 	"sync/atomic"
 	"syscall"
 	"time"
@@ -33,12 +36,30 @@ var (
 	curStart atomic.Int64
 )
 
+// capMemory: hard cap on the address space; and no garbage collection, so
+// that a huge block is never recycled: a recycled block must be zeroed, i.e.
+// touched, whereas a fresh one stays virtual. The worker leaves (and is
+// restarted by the parent) before the cap or the resident-set guard is near.
 func capMemory() {
+	debug.SetGCPercent(-1)
 	lim := syscall.Rlimit{Cur: hardCapAS, Max: hardCapAS}
 	if err := syscall.Setrlimit(syscall.RLIMIT_AS, &lim); err != nil {
 		fmt.Fprintln(os.Stderr, "INCONCLUSIVE: cannot set RLIMIT_AS:", err)
 		os.Exit(2)
 	}
+}
+
+func rss() uint64 {
+	b, err := os.ReadFile("/proc/self/statm")
+	if err != nil {
+		return 0
+	}
+	f := strings.Fields(string(b))
+	if len(f) < 2 {
+		return 0
+	}
+	pages, _ := strconv.ParseUint(f[1], 10, 64)
+	return pages * uint64(os.Getpagesize())
 }
 
 func watchdog() {
@@ -60,6 +81,7 @@ func evalCase(c *Case) childResult {
 }
 
 func childMain() {
+	runtime.GOMAXPROCS(1) // goroutine hand-offs without futex wake-ups, cheap stop-the-world for ReadMemStats; the cases are sequential anyway
 	capMemory()
 	watchdog()
 	if p := common.Arg("one"); p != "" {
@@ -100,6 +122,7 @@ func childMain() {
 	}
 	se2 := sp.nA2/4 + 1
 	buf := make([]byte, 0, 32)
+	alloc0, n := totalAlloc(), 0
 	for i := from; i < total; i += of {
 		buf = append(buf[:0], 'S', ' ')
 		buf = strconv.AppendInt(buf, int64(i), 10)
@@ -118,7 +141,8 @@ func childMain() {
 			b, _ := json.Marshal(r)
 			os.Stdout.WriteString("O " + strconv.Itoa(i) + " " + string(b) + "\n")
 		}
-		if r.Obs.Alloc > freshAbove && i+of < total {
+		n++
+		if (totalAlloc()-alloc0 > restartAt || (n%256 == 0 && rss() > rssGuard)) && i+of < total {
 			os.Stdout.WriteString("F " + strconv.Itoa(i+of) + "\n")
 			return
 		}
